@@ -46,6 +46,19 @@ Theorem C06_flush_runs_agree :
 Proof. exact flush_both_agree. Qed.
 Print Assumptions C06_flush_runs_agree.
 
+(** ... whenever the index list the harness sends is a permutation of 0..n-1 (it always is) *)
+Theorem C06_permute_is_permutation :
+  forall (A : Type) (idx : list nat) (l : list A),
+    Permutation idx (seq 0 (length l)) -> Permutation l (permute idx l).
+Proof. exact permute_is_permutation. Qed.
+Print Assumptions C06_permute_is_permutation.
+
+Theorem C06_flush_runs_agree_idx :
+  forall idx ds c, wf_content c -> wf_dirty ds -> Permutation idx (seq 0 (length ds)) ->
+    fst (flush_both idx ds c) = snd (flush_both idx ds c).
+Proof. exact flush_both_agree_idx. Qed.
+Print Assumptions C06_flush_runs_agree_idx.
+
 (** (b) UpdateWithChangeSet (error classes collapsed to "rejected, set unchanged"): any
     permutation of the change set gives the same validator set, priorities included. *)
 Theorem C06_valset_order_free :
